@@ -93,11 +93,15 @@ class ContractError(Exception):
 
 # ---------------------------------------------------------------------------------------
 class SymEnv:
-    def __init__(self, gen, st, binds=None, old=None, result=None):
+    def __init__(self, gen, st, binds=None, old=None, result=None, goal=False):
         self.g = gen; self.st = st; self.b = dict(binds or {}); self.old = old; self.result = result
+        # fuel of recursive ghost functions (Dafny-style): terms of a GOAL unfold twice, assumed terms once
+        self.goal = goal
+        self.labels = {}
 
     def sub(self, **kw):
-        e = SymEnv(self.g, self.st, self.b, self.old, self.result)
+        e = SymEnv(self.g, self.st, self.b, self.old, self.result, self.goal)
+        e.labels = self.labels
         e.b.update(kw); return e
 
     def eval(self, txt):
@@ -263,18 +267,33 @@ class SymEnv:
         return z3.If(c, a, b)
 
     def quant(self, n, universal):
-        var = n.args[0].id
-        v = z3.Int('%s!q%d' % (var, next(_cnt)))
-        e2 = self.sub(**{var: v})
-        rng = e2.tobool(e2.e(n.args[1])); body = e2.tobool(e2.e(n.args[2]))
+        # nested quantifiers of the same kind are flattened into one multi-variable quantifier
+        # (E-matching cannot find triggers across nested binders)
+        vs = []; rngs = []; e2 = self; cur = n; fname = 'forall' if universal else 'exists'
+        while True:
+            var = cur.args[0].id
+            v = z3.Int('%s!q%d' % (var, next(_cnt)))
+            e2 = e2.sub(**{var: v}); vs.append(v)
+            rngs.append(e2.tobool(e2.e(cur.args[1])))
+            pats_src = cur.args[3:]
+            body_n = cur.args[2]
+            if isinstance(body_n, ast.Call) and isinstance(body_n.func, ast.Name) and body_n.func.id == fname and not pats_src:
+                cur = body_n; continue
+            break
+        body = e2.tobool(e2.e(body_n))
         pats = []
-        for p in n.args[3:]:
-            t = e2.e(p)
-            pats.append(t.val if isinstance(t, D) else t)
+        for p in pats_src:
+            if isinstance(p, ast.Call) and isinstance(p.func, ast.Name) and p.func.id == 'mp':
+                ts = [e2.e(a) for a in p.args]
+                pats.append(z3.MultiPattern(*[t.val if isinstance(t, D) else t for t in ts]))
+            else:
+                t = e2.e(p)
+                pats.append(t.val if isinstance(t, D) else t)
         kw = dict(patterns=pats) if pats else {}
+        rng = z3.And(*rngs) if len(rngs) > 1 else rngs[0]
         if universal:
-            return z3.ForAll([v], z3.Implies(rng, body), **kw)
-        return z3.Exists([v], z3.And(rng, body), **kw)
+            return z3.ForAll(vs, z3.Implies(rng, body), **kw)
+        return z3.Exists(vs, z3.And(rng, body), **kw)
 
     def call(self, n):
         f = n.func.id; A = n.args
@@ -285,7 +304,12 @@ class SymEnv:
         if f == 'old':
             if self.old is None:
                 raise ContractError('old() without entry state')
-            return SymEnv(self.g, self.old, self.b, self.old, self.result).e(A[0])
+            return SymEnv(self.g, self.old, self.b, self.old, self.result, self.goal).e(A[0])
+        if f == 'at_loop_entry':
+            if 'loop' not in self.labels:
+                raise ContractError('at_loop_entry() outside a loop invariant')
+            e2 = SymEnv(self.g, self.labels['loop'], self.b, self.old, self.result, self.goal)
+            return e2.e(A[0])
         if f == 'implies':
             return z3.Implies(self.tobool(self.e(A[0])), self.tobool(self.e(A[1])))
         if f == 'iff':
@@ -321,16 +345,20 @@ class SymEnv:
         if f in ('sqrt', 'exp', 'log'):
             return self.g.math(f, toreal(self.num(self.e(A[0]))))
         if f in self.g.ghostfuns:
-            fn, gh = self.g.ghostfuns[f]
+            fns, gh = self.g.ghostfuns[f]
             args = [self.num(self.e(a)) for a in A]
-            r = fn(*args)
-            return r
+            lvl = self.g.ghost_level.get(f)
+            if lvl is None:
+                lvl = 2 if self.goal else 1
+            fn = fns[min(lvl, len(fns) - 1)]
+            return fn(*args)
         if f in self.g.specs:
             params, body = self.g.specs[f]
             if len(params) != len(A):
                 raise ContractError('arity of %s' % f)
             binds = {p: self.e(a) for p, a in zip(params, A)}
-            e2 = SymEnv(self.g, self.st, dict(self.b, **binds), self.old, self.result)
+            e2 = SymEnv(self.g, self.st, dict(self.b, **binds), self.old, self.result, self.goal)
+            e2.labels = self.labels
             return e2.eval(body)
         raise ContractError('unknown function %s' % f)
 
